@@ -159,15 +159,26 @@ pub fn run_case(case: &Case) -> (Vec<(String, String)>, Info) {
             }
             // after the tip block: outputs of the block that just expired can no longer be spent
             let tip = new_path.last().unwrap();
-            if tip.id > gp + 1 {
-                let expired_id = tip.id - gp - 1;
-                let candidates: Vec<RefEntry> = ledger
+            if tip.id > gp {
+                // the next block is tip+1: an output created in block c may be spent by blocks <= c+gp,
+                // so everything created at or below tip-gp is out of the window. The block exactly at
+                // the edge (tip-gp, rebroadcast by the next block) is probed first.
+                let expired_id = tip.id - gp;
+                let mut candidates: Vec<RefEntry> = ledger
                     .utxo
                     .iter()
-                    .filter(|(k, e)| e.block_id <= expired_id && e.amount > 0 && e.slip_type != 9 && !probed.contains(*k))
+                    .filter(|(k, e)| e.block_id == expired_id && e.amount > 0 && e.slip_type != 9 && !probed.contains(*k))
                     .map(|(_, e)| e.clone())
                     .take(2)
                     .collect();
+                candidates.extend(
+                    ledger
+                        .utxo
+                        .iter()
+                        .filter(|(k, e)| e.block_id < expired_id && e.amount > 0 && e.slip_type != 9 && !probed.contains(*k))
+                        .map(|(_, e)| e.clone())
+                        .take(1),
+                );
                 for e in candidates {
                     let owner = match (0u8..8).map(key).find(|k| k.0 == e.owner) {
                         Some(k) => k,
